@@ -533,6 +533,17 @@ Definition step (st : state) (a : action) : state :=
 
 Definition run (acts : list action) : state := fold_left step acts init.
 
+(* manager.New on an existing index directory: every *.idx file that index.NewReader accepts is served (in file
+   name order = fs) and locked once (`mgr.lock(mgr.indexes)`); files it rejects are logged, skipped and stay in the
+   directory (junk); nextStreamID = highest stream id + 1; the builder knows the captures P processed before. *)
+Definition init_from (fs : list file) (junk : list N) (P : list N) : state :=
+  mkState fs (lock fs []) (map f_uid fs ++ junk) []
+          (filter (fun k => match capdb k with [] => false | _ => true end) P) P
+          (fold_left (fun a k => N.max a (k + 1)) P 0)
+          (snap_next fs)
+          (fold_left (fun a u => N.max a (u + 1)) (map f_uid fs ++ junk) 0)
+          0%nat false 0 None None None None [].
+
 (* is the action one the harness can perform in this state? (used by the replay driver only) *)
 Definition enabled (st : state) (a : action) : bool :=
   match a with
@@ -554,6 +565,12 @@ Definition enabled (st : state) (a : action) : bool :=
 
 End WithCaptures.
 
+(* files in the directory that are not served (at quiescence: the unreadable ones) *)
+Definition disk_junk (st : state) : list N :=
+  filter (fun u => negb (existsb (N.eqb u) (map f_uid (indexes st)))) (disk st).
+
 (* the instance that is extracted and run against the Go code *)
 Definition step_impl (capdb : N -> capture) (bad : N -> bool) : state -> action -> state := step capdb bad false merge_ents.
 Definition step_legacy (capdb : N -> capture) (bad : N -> bool) : state -> action -> state := step capdb bad true merge_ents.
+Definition restart_impl (capdb : N -> capture) (st : state) (junk : list N) : state :=
+  init_from capdb (indexes st) (disk_junk st ++ junk) (processed st).
